@@ -24,6 +24,9 @@ def observe(R, n, seed=None, nb=200):
 
 def brief(case):
     """replay data of one history: initial world + operations (without the bulky snapshots)"""
+    if case.get("kind") == "scenario":
+        return {"seed": case["seed"], "index": case["index"], "kind": "scenario", "scenario": case["scenario"],
+                "how": "harness/cmd/c08/scenarios.go: submit while every step would succeed, pass, break the scripted step, enact"}
     ops = [{k: v for k, v in o.items() if k != "proposals"} for o in case["ops"]]
     return {"seed": case["seed"], "index": case["index"], "kind": case.get("kind"), "boundary": case.get("boundary"),
             "initial_world": case["initial_world"], "ops": ops}
@@ -35,7 +38,8 @@ def report(R, cases, viol):
             R.violation(c, "real gov code violates clause %s in %s history #%d (seed %s)%s; operations with handler calls: %s"
                         % (c, cases[idx].get("kind"), idx, cases[idx]["seed"],
                            (" boundary spec " + json.dumps(cases[idx]["boundary"])) if cases[idx].get("boundary") else "",
-                           json.dumps([o for o in brief(cases[idx])["ops"] if o.get("applied") or o["op"] == "submit" and o["result"] == "ok"])[:500]),
+                           json.dumps(cases[idx]["scenario"] if cases[idx].get("kind") == "scenario" else
+                                      [o for o in brief(cases[idx])["ops"] if o.get("applied") or o["op"] == "submit" and o["result"] == "ok"])[:600]),
                         brief(cases[idx]))
 
 
@@ -49,6 +53,8 @@ def run(R):
                  "councilor rank bookkeeping (OnCouncilorAct/Absent) and the average-slash argument of handlers are not modelled; durations and block counts stay below 2^31 (no int64/time.Duration wrap-around)",
                  "a panic inside EndBlocker (property C06; only with the earlier IsQuorum-error-panics shape) is observed as 'panic' and the block's writes are discarded; the model does the same",
                  "UpdateSpendingPoolProposal.ValidateBasic (quorum within [0,1]) is modelled as in the current tree",
+                 "scripted atomicity scenarios (spending distribution / withdraw, basket withdraw-surplus, gov durations): the 'complete effect' predicate and the byte-wise store comparison are computed by the harness; collectives handlers are pinned by the error-shape table but not scripted",
+                 "block times carry nanoseconds (model time unit = ns); periods are whole seconds as in the code",
                  "address rotation: only MsgRotateRecoveryAddress onto an address without actor record is exercised; content rewrites of slash-validator proposals (recovery, RefuteSlashingProposal), the automatic slash proposal of slashing.Jail and InitGenesis are pinned as writers (C08_lifecycle_writers_pinned) but outside the model"]
     if not R.gen("gen_govhandlers", "GovHandlers.v"):
         # the tree is outside the translator's fragment (already a broken obligation): fall back to the
@@ -58,7 +64,7 @@ def run(R):
             "From Sekai Require Import Base.Prelude.\nDefinition durations_error_returned : bool := false.\n"
             "Definition router_apply_on_cache_written_iff_ok : bool := true.\n"
             "Definition quorum_error_panics_flag : bool := false.\nDefinition dynamic_veto_from_allowed : bool := true.\n"
-            "Definition lifecycle_writers : list string := [].\n")
+            "Definition lifecycle_writers : list string := [].\nDefinition handler_error_shapes : list (string * list string) := [].\n")
     R.coq_files(FILES)
     R.coq_property()
     R.audit()
@@ -70,7 +76,7 @@ def run(R):
         R.oblige("correspondence: model = real msg server + EndBlocker on %d histories" % total, not mism,
                  "first mismatching histories: " + json.dumps([brief(cases[i]) for i in mism[:2]])[:3000])
         report(R, cases, viol)
-        R.samples = [brief(cases[0])["ops"][:6], brief(cases[len(cases) // 2])["ops"][:6]]
+        R.samples = [brief(cases[0])["ops"][:6], brief(cases[-1])]
         dist = json.load(open(os.path.join(out, "dist.json")))
         R.coverage.update({"traces_validated_against_impl": total, "input_distribution": dist})
     if R.broken and not R.violations:
